@@ -126,7 +126,8 @@ PROPS = {
         "runs": [app(40, 1500, replicas=REPLICAS),
                  {"kind": "upgrade", "profile": "tz", "n_quick": 200, "n_thorough": 6000, "per_shard": 20, "env": {"TZ": "Europe/Warsaw"}},
                  {"kind": "upgrade", "profile": "tz", "n_quick": 100, "n_thorough": 3000, "per_shard": 20, "env": {"TZ": "America/St_Johns"}},
-                 {"kind": "sweep", "profile": "clock", "n_quick": 1, "n_thorough": 1, "per_shard": 1000}],
+                 {"kind": "sweep", "profile": "clock", "n_quick": 1, "n_thorough": 1, "per_shard": 1000},
+                 {"kind": "upgrade", "profile": "handler", "n_quick": 30, "n_thorough": 600, "per_shard": 20, "env": {"TZ": "UTC"}}],
         "preds": ["C11."],
         "rule": APP_RULE + "; C11: every history is executed in three separate OS processes with different TZ, GOMAXPROCS and node-local x/crisis settings (one skips the "
                 "genesis assertion of the invariants, one checks the invariants after every block); app hash after every Commit, "
